@@ -912,7 +912,9 @@ class Replica(object):
                                            {"kind": kind, "tchange": "%s->%s" % (head(x.get("typ")), head(y.get("typ"))), "entry": "return" if n == "<return>" else None})
                     if x.get("default") != y.get("default") or type(x.get("default")) is not type(y.get("default")):
                         self.add_violation("C18", job, "W3-default", "%s width %s: %s default %r (wrapped) vs %r" % (kind, ll, n, x.get("default"), y.get("default")),
-                                           {"kind": kind, "dchange": "%s->%s" % (type(x.get("default")).__name__, type(y.get("default")).__name__), "entry": "return" if n == "<return>" else None})
+                                           {"kind": kind, "dchange": "%s->%s" % (type(x.get("default")).__name__, type(y.get("default")).__name__), "entry": "return" if n == "<return>" else None,
+                                            # the two values are strings that differ in their white space only (a tab, a run of blanks inside the value)
+                                            "ws_only": True if isinstance(x.get("default"), str) and isinstance(y.get("default"), str) and x["default"].split() == y["default"].split() else None})
                     elif _norm_prose(x.get("doc")) != _norm_prose(y.get("doc")):
                         self.add_violation("C18", job, "W4-prose", "%s width %s: %s prose %r (wrapped) vs %r" % (kind, ll, n, x.get("doc"), y.get("doc")), {"kind": kind, "entry": "return" if n == "<return>" else None})
                 if _norm_prose(a.get("doc")) != _norm_prose(b.get("doc")):
